@@ -242,7 +242,7 @@ FAMILIES["arrmeth"] = {
         {"wrap": "impl ArrayMeta", "items": [
             {"kind": "fn", "file": "src/array.rs", "impl": AM, "fn": f} for f in
             ["get_inner_mut", "get_mut", "is_sorted_up", "is_sorted_down", "take_sorted_flags", "take_value_flags", "or_sorted_flags",
-             "mark_sorted_up", "mark_sorted_down", "reset_flags", "take_map_keys"]]},
+             "mark_sorted_up", "mark_sorted_down", "reset_flags", "take_map_keys", "take_label"]]},
         {"prefix": "#[derive(Debug, Clone, Default, PartialEq, Eq)]\n", "items": [
             {"kind": "block", "name": "struct ArrayMetaInner", "file": "src/array.rs", "header": r"^pub struct ArrayMetaInner \{",
              "rewrites": (("R4", r"(?m)^\s*#\[serde\([^\n]*\)\]\n", "", "serde field attribute dropped"),)}]},
@@ -280,7 +280,7 @@ FAMILIES["arrmeth"] = {
             for f in ["rise_indices", "fall_indices", "is_sorted_up", "is_sorted_down"]
         ] + [
             {"kind": "fn", "name": "Array::" + f, "file": "src/algorithm/monadic/mod.rs", "impl": r"^impl<T: ArrayValue> Array<T> \{", "fn": f}
-            for f in ["classify", "deduplicate", "unique", "count_unique", "occurrences"]
+            for f in ["classify", "deduplicate", "unique", "count_unique", "occurrences", "first", "last"]
         ]},
     ],
 }
